@@ -422,16 +422,21 @@ Section Wire.
   (** the application's target namespace *)
   Variable tns : text.
 
-  (** deserialize(): HierDictDocument looks the body up under the TYPE name of the in-message *)
-  Definition srv_in_object (U : universe) (p : proto) (d : descriptor) (r : rmsg) : out inobj :=
-    let found := match p with
-                 | PHier => text_eqb (msg_type_name U d (md_in d)) (md_name d)
-                 | _ => true
-                 end in
+  (** deserialize(): HierDictDocument looks the body up under the type name of the in-message
+      (pinned) or under its sub_name, i.e. the message name of a bare method (repaired); the
+      wrapper of the other styles is named after the method either way *)
+  Definition hier_found (m : lk_mode) (U : universe) (d : descriptor) : bool :=
+    match m with
+    | LkSubName => true
+    | LkTypeName => text_eqb (msg_type_name U d (md_in d)) (md_name d)
+    end.
+  Definition srv_in_object_gen (m : lk_mode) (U : universe) (p : proto) (d : descriptor) (r : rmsg) : out inobj :=
+    let found := match p with PHier => hier_found m U d | _ => true end in
     if found
     then (do r' <- xfer p (md_in d) r;
           match r' with RWrap vs => Ok (IWrap vs) | RBare v => Ok (IInst (PVal v)) end)
     else Ok (IInst (PVal (VList []))).          (* _doc_to_object(cls, None) == [] *)
+  Definition srv_in_object := srv_in_object_gen hier_bare_lookup.
 
   (** ServerBase.get_out_object after process_request *)
   Definition srv_ignored_gen (ch : list (cond * ign_act)) (U : universe) (d : descriptor) (o : oobj) : out oobj :=
